@@ -451,6 +451,9 @@ pub struct Finding {
     pub status: String,
     #[serde(default)]
     pub commit: Option<String>,
+    /// the specific failing input: a case of this property, executed on every run of the check
+    #[serde(default)]
+    pub case: Option<Value>,
 }
 
 pub fn verif_root() -> PathBuf {
@@ -722,7 +725,13 @@ fn check_inner<P: Prop>(a: &CheckArgs, meta: &Meta, runs: u64, dir: &Path, start
                     sim_ms += v["sim_ms"].as_u64().unwrap_or(0);
                     if let Some(m) = v["counters"].as_object() {
                         for (k, n) in m {
-                            *counters.entry(k.clone()).or_insert(0) += n.as_u64().unwrap_or(0);
+                            let n = n.as_u64().unwrap_or(0);
+                            let e = counters.entry(k.clone()).or_insert(0);
+                            if k.starts_with("max.") {
+                                *e = (*e).max(n);
+                            } else {
+                                *e += n;
+                            }
                         }
                     }
                     if let Some(s) = v["samples"].as_array() {
@@ -745,6 +754,23 @@ fn check_inner<P: Prop>(a: &CheckArgs, meta: &Meta, runs: u64, dir: &Path, start
     // classify violations
     found.sort_by_key(|f| f.run);
     let mut known_seen: BTreeMap<String, u64> = BTreeMap::new();
+    // pinned inputs of known findings: executed on every run; still failing => KNOWN-FINDING
+    for f in findings.iter().filter(|f| f.property == P::ID && f.status == "known") {
+        if let Some(cv) = &f.case {
+            match exec_isolated(P::ID, dir, cv, "known") {
+                Ok(Some(v)) if v.class == f.class && v.fingerprint.contains(&f.fingerprint) => {
+                    *known_seen.entry(f.what.clone()).or_insert(0) += 1;
+                }
+                Ok(Some(v)) => {
+                    harness_errors.push(format!("known finding '{}' now fails differently: {} [{}]", f.what, v.class, v.fingerprint));
+                }
+                Ok(None) => {
+                    println!("note: known finding no longer reproduces on this tree: {}", f.what);
+                }
+                Err(e) => harness_errors.push(format!("known finding case could not be executed: {e}")),
+            }
+        }
+    }
     let mut fresh: Vec<Found<P::Case>> = vec![];
     let mut fresh_keys: HashSet<(String, String)> = HashSet::new();
     let mut fresh_total = 0u64;
